@@ -867,7 +867,7 @@ def rule_leave(ctx):
     ctx.anchor(len(lg) == 1, "LeaveGroupRequest construction")
     ok = [unparse(a) for a in lg[0].ast.args] == ["self.group_id", "self.member_id"]
     ctx.ob(R, fi, lg[0], ok, "LeaveGroup does not carry this member's group and member id", text="identity")
-    tests = [t for t in c.nodes if t.kind == "test" and c.dominates(t, lg[0])]
+    tests = [t for t in c.nodes if t.kind == "test" and not isinstance(t.ast, ast.Constant) and c.dominates(t, lg[0])]
     texts = sorted(unparse(t.ast) for t in tests)
     ok = texts == ["self._group_instance_id is None", "self.generation > 0"] and all(c.dominated_by_branch(t, "T", lg[0]) for t in tests)
     ctx.ob(R, fi, lg[0], ok, f"LeaveGroup condition is {texts}, expected generation > 0 and no group_instance_id", text="condition")
